@@ -393,6 +393,20 @@ func (grid *RegularGrid) removeQuadFromCell(toRemove *Quad, x uint, y uint) {
 	}
 }
 
+// clampCell keeps the cell of a far edge inside the grid: a far edge that lies
+// a hair below the grid's border is rounded onto it by the float32 subtraction,
+// and its cell computed one past the last (InsertQuad clamps the same way when
+// it appends a quad).
+func (grid *RegularGrid) clampCell(x uint, y uint) (uint, uint) {
+	if rows := (uint)(len(grid.Grid)); y >= rows {
+		y = rows - 1
+	}
+	if cols := (uint)(len(grid.Grid[0])); x >= cols {
+		x = cols - 1
+	}
+	return x, y
+}
+
 func (grid *RegularGrid) mergeQuads(existingQuad *Quad, newQuad *Quad) {
 
 	minPoint := Sub(existingQuad.Center, existingQuad.Extents)
@@ -401,6 +415,7 @@ func (grid *RegularGrid) mergeQuads(existingQuad *Quad, newQuad *Quad) {
 	minYGridCoord0 := (uint)(math.Floor((float64)(minPoint.z-grid.Min.z) / (float64)(grid.Resolution)))
 	maxXGridCoord0 := (uint)(math.Floor((float64)(maxPoint.x-grid.Min.x) / (float64)(grid.Resolution)))
 	maxYGridCoord0 := (uint)(math.Floor((float64)(maxPoint.z-grid.Min.z) / (float64)(grid.Resolution)))
+	maxXGridCoord0, maxYGridCoord0 = grid.clampCell(maxXGridCoord0, maxYGridCoord0)
 
 	centerDiff := Sub(newQuad.Center, existingQuad.Center)
 	extentsDiff := Sub(newQuad.Extents, existingQuad.Extents)
@@ -414,6 +429,7 @@ func (grid *RegularGrid) mergeQuads(existingQuad *Quad, newQuad *Quad) {
 	minYGridCoord1 := (uint)(math.Floor((float64)(minPoint.z-grid.Min.z) / (float64)(grid.Resolution)))
 	maxXGridCoord1 := (uint)(math.Floor((float64)(maxPoint.x-grid.Min.x) / (float64)(grid.Resolution)))
 	maxYGridCoord1 := (uint)(math.Floor((float64)(maxPoint.z-grid.Min.z) / (float64)(grid.Resolution)))
+	maxXGridCoord1, maxYGridCoord1 = grid.clampCell(maxXGridCoord1, maxYGridCoord1)
 
 	minMinX := minXGridCoord0
 	maxMinX := minXGridCoord1
